@@ -1,6 +1,5 @@
 package simrt
 
-
 // Recv is the simulated <-c.
 //
 //go:norace
